@@ -19,6 +19,12 @@ Main loop (`step`, `loop`, `runFile`, the model of `parse_file` / `parse_ppinstr
 * `C13_directives_obeyed`, `find_define_*`, `find_undef_*`, `C13_nested_inactive` — what the directives do;
 * `C13_plain_passthrough` — text without directive, macro name or comment passes through byte for byte
   (identifiers are looked up as maximal runs only: `idents`).
+
+Expansion (`expandCall`, `scanBody`, the model of `handle_macro` / `replace`):
+* `C13_expand_object_inert` — an object-like macro whose text holds nothing to substitute expands to that text;
+* `C13_scanBody_substitutes` — a body of literal text and parameter names expands to the text with every
+  parameter replaced by its argument;
+* `C13_stringify`, `C13_concat` — `#p` gives the argument in double quotes, `a##b` the two arguments side by side.
 -/
 set_option linter.unusedSimpArgs false
 set_option linter.unusedVariables false
@@ -787,6 +793,253 @@ inactive one is inactive whatever its own condition says -/
 theorem C13_nested_inactive (st : St) (b : Bool) (h : st.writing = false) : ({ st with conds := b :: st.conds } : St).writing = false := by
   simp only [St.writing, List.all_cons] at h ⊢
   simp [h]
+
+/-! ## Expansion: what a macro use is replaced by -/
+
+/-- a character `replace_skip` copies and that starts nothing: no identifier character, no newline, no
+backslash, no `#`, no quote -/
+def inert (c : B) : Bool := !isWordChar c && c != nl && c != 92 && c != 35 && c != quote
+
+theorem skip_inert : ∀ (body : List B), (∀ c ∈ body, inert c = true) → skip false body = (body, []) := by
+  intro body
+  induction body with
+  | nil => intro _; rfl
+  | cons c cs ih =>
+    intro h
+    have hc := h c (by simp)
+    simp only [inert, Bool.and_eq_true, Bool.not_eq_true', bne_iff_ne, ne_eq] at hc
+    obtain ⟨⟨⟨⟨h1, h2⟩, h3⟩, h4⟩, h5⟩ := hc
+    have hq : (c == quote) = false := by simpa using h5
+    rw [skip]
+    simp only [h1, Bool.false_or]
+    have e2 : (c == nl) = false := by simpa using h2
+    have e3 : (c == 92) = false := by simpa using h3
+    have e4 : (c == 35) = false := by simpa using h4
+    simp only [e2, e3, e4, Bool.or_false, Bool.false_eq_true, if_false, hq]
+    rw [ih (fun x hx => h x (by simp [hx]))]
+
+/-- **An object-like macro whose text holds nothing to substitute expands to exactly its text** -/
+theorem C13_expand_object_inert (t : Table) (cx : Ctx) (f : Nat) (stack : List (List B)) (m : Macro) (rest : List B) (pm : PMap)
+    (hc : m.callable = false) (hp : m.params = []) (hk : m.kind = .text) (hs : stack.contains m.name = false)
+    (hb : ∀ c ∈ m.body, inert c = true) :
+    expandCall t cx (f + 3) stack m rest pm = .ok (m.body, rest) := by
+  unfold expandCall
+  simp only [hc, Bool.not_false, if_true]
+  unfold expandBody
+  simp only [hp, List.length_nil, bne_self_eq_false, Bool.false_eq_true, if_false, hk, hs]
+  unfold scanBody
+  simp [skip_inert m.body hb]
+
+/-! ### argument substitution -/
+
+/-- the text of a body `l0 n1 l1 n2 l2 … nk lk` behind `l0`: parameter names `n` each followed by literal text `l` -/
+def segsText (segs : List (List B × List B)) : List B := segs.flatMap (fun s => s.1 ++ s.2)
+
+/-- what the property says the body expands to: every parameter name replaced by its argument -/
+def segsSubst (pm : PMap) (segs : List (List B × List B)) : List B :=
+  segs.flatMap (fun s => (pm.get s.1).getD s.1 ++ s.2)
+
+/-- names are identifiers bound in `pm`; the literal pieces hold nothing to substitute; only the last one may be
+empty (two names side by side would read as one identifier) -/
+def WfSegs (pm : PMap) : List (List B × List B) → Prop
+  | [] => True
+  | (n, l) :: rest => n ≠ [] ∧ (∀ c ∈ n, isWordChar c = true) ∧ (pm.get n).isSome ∧ (∀ c ∈ l, inert c = true) ∧
+      (l = [] → rest = []) ∧ WfSegs pm rest
+
+theorem skip_lit (s rest : List B) (hs : ∀ c ∈ s, inert c = true) (hr : ∀ c r', rest = c :: r' → isWordChar c = true) :
+    skip false (s ++ rest) = (s, rest) := by
+  induction s with
+  | nil =>
+    cases rest with
+    | nil => rfl
+    | cons c r' => simp [skip, hr c r' rfl]
+  | cons c cs ih =>
+    have hc := hs c (by simp)
+    simp only [inert, Bool.and_eq_true, Bool.not_eq_true', bne_iff_ne, ne_eq] at hc
+    obtain ⟨⟨⟨⟨h1, h2⟩, h3⟩, h4⟩, h5⟩ := hc
+    have hq : (c == quote) = false := by simpa using h5
+    have e2 : (c == nl) = false := by simpa using h2
+    have e3 : (c == 92) = false := by simpa using h3
+    have e4 : (c == 35) = false := by simpa using h4
+    rw [List.cons_append, skip]
+    simp only [h1, Bool.false_or, e2, e3, e4, Bool.or_false, Bool.false_eq_true, if_false, hq]
+    rw [ih (fun x hx => hs x (by simp [hx]))]
+
+theorem takeWord_name (n rest : List B) (hn : ∀ c ∈ n, isWordChar c = true) (hr : ∀ c r', rest = c :: r' → isWordChar c = false) :
+    takeWord (n ++ rest) = (n, rest) := by
+  unfold takeWord
+  induction n with
+  | nil =>
+    cases rest with
+    | nil => rfl
+    | cons c r' => simp [List.takeWhile, List.dropWhile, hr c r' rfl]
+  | cons c cs ih =>
+    have hc := hn c (by simp)
+    have := ih (fun x hx => hn x (by simp [hx]))
+    simp only [Prod.mk.injEq] at this
+    simp [List.takeWhile, List.dropWhile, hc, this.1, this.2]
+
+theorem inert_not_word (c : B) (h : inert c = true) : isWordChar c = false := by
+  simp only [inert, Bool.and_eq_true, Bool.not_eq_true'] at h
+  exact h.1.1.1.1
+
+/-- **Argument substitution**: a macro body made of literal text and parameter names expands to that text with
+every parameter name replaced by its argument — nothing else changes, nothing is looked up in the macro table -/
+theorem C13_scanBody_substitutes (t : Table) (cx : Ctx) (stack : List (List B)) (pm : PMap) :
+    ∀ (segs : List (List B × List B)) (l0 : List B) (f : Nat) (out : List B), (∀ c ∈ l0, inert c = true) → WfSegs pm segs →
+      2 * segs.length + 1 ≤ f →
+      scanBody t cx f stack pm (l0 ++ segsText segs) out = .ok (out ++ l0 ++ segsSubst pm segs) := by
+  intro segs
+  induction segs with
+  | nil =>
+    intro l0 f out hl0 _ hf
+    obtain ⟨f', rfl⟩ : ∃ f', f = f' + 1 := ⟨f - 1, by omega⟩
+    unfold scanBody
+    simp [segsText, segsSubst, skip_inert l0 hl0]
+  | cons sg rest ih =>
+    intro l0 f out hl0 hwf hf
+    obtain ⟨n, l⟩ := sg
+    obtain ⟨hne, hnw, hbound, hl, hlast, hrest⟩ := hwf
+    obtain ⟨f', rfl⟩ : ∃ f', f = f' + 2 := ⟨f - 2, by simp at hf; omega⟩
+    obtain ⟨a, as, hna⟩ : ∃ a as, n = a :: as := by
+      cases n with
+      | nil => exact absurd rfl hne
+      | cons a as => exact ⟨a, as, rfl⟩
+    have haw : isWordChar a = true := hnw a (by simp [hna])
+    -- what follows the name: the literal piece (not an identifier character) or the end
+    have hafter : ∀ c r', l ++ segsText rest = c :: r' → isWordChar c = false := by
+      intro c r' e
+      cases l with
+      | nil =>
+        have := hlast rfl; subst this
+        simp [segsText] at e
+      | cons b bs =>
+        simp only [List.cons_append, List.cons.injEq] at e
+        rw [← e.1]; exact inert_not_word b (hl b (by simp))
+    have htext : l0 ++ segsText ((n, l) :: rest) = l0 ++ (n ++ (l ++ segsText rest)) := by
+      simp [segsText, List.append_assoc]
+    have hskip : skip false (l0 ++ (n ++ (l ++ segsText rest))) = (l0, n ++ (l ++ segsText rest)) :=
+      skip_lit l0 _ hl0 (by intro c r' e; rw [hna] at e; simp only [List.cons_append, List.cons.injEq] at e; rw [← e.1]; exact haw)
+    obtain ⟨v, hv⟩ : ∃ v, pm.get n = some v := Option.isSome_iff_exists.mp hbound
+    unfold scanBody
+    rw [htext, hskip]
+    have hnl : (a == nl) = false := by
+      cases hq : a == nl with
+      | false => rfl
+      | true => simp [nl] at hq; subst hq; simp [isWordChar, isAlpha, isDigit, isLowerAlpha, isUpperAlpha] at haw
+    have h35 : (a == 35) = false := by
+      cases hq : a == 35 with
+      | false => rfl
+      | true => simp at hq; subst hq; simp [isWordChar, isAlpha, isDigit, isLowerAlpha, isUpperAlpha] at haw
+    have htw : takeWord (a :: (as ++ (l ++ segsText rest))) = (a :: as, l ++ segsText rest) := by
+      have := takeWord_name n (l ++ segsText rest) hnw hafter
+      rw [hna] at this; simpa using this
+    simp only [hna, List.cons_append, hnl, h35, haw, Bool.false_eq_true, if_false, if_true, htw]
+    unfold resolveWord
+    simp only [if_true, ← hna, hv]
+    have := ih l (f' + 1) (out ++ l0 ++ v) hl hrest (by simp at hf ⊢; omega)
+    rw [this]
+    simp [segsSubst, hv, List.append_assoc]
+
+theorem word_head (n : List B) (hne : n ≠ []) (hnw : ∀ c ∈ n, isWordChar c = true) : ∃ a as, n = a :: as ∧ isWordChar a = true := by
+  cases n with
+  | nil => exact absurd rfl hne
+  | cons a as => exact ⟨a, as, rfl, hnw a (by simp)⟩
+
+theorem word_not_special (a : B) (h : isWordChar a = true) : (a == nl) = false ∧ (a == 35) = false ∧ (a == 92) = false ∧ (a == quote) = false := by
+  refine ⟨?_, ?_, ?_, ?_⟩
+  all_goals
+    cases hq : (a == _) with
+    | false => rfl
+    | true =>
+      simp only [beq_iff_eq] at hq
+      subst hq
+      simp [isWordChar, isAlpha, isDigit, isLowerAlpha, isUpperAlpha, nl, quote] at h
+
+theorem skip_word (n rest : List B) (a : B) (as : List B) (hna : n = a :: as) (haw : isWordChar a = true) : skip false (n ++ rest) = ([], n ++ rest) := by
+  subst hna
+  simp [skip, haw]
+
+theorem scanBody_end (t : Table) (cx : Ctx) (stack : List (List B)) (pm : PMap) (out : List B) (f : Nat) :
+    scanBody t cx (f + 1) stack pm [] out = .ok out := by
+  unfold scanBody; simp [skip]
+
+/-- one parameter name: replaced by its argument -/
+theorem scanBody_param (t : Table) (cx : Ctx) (stack : List (List B)) (pm : PMap) (n v rest out : List B) (f : Nat)
+    (hne : n ≠ []) (hnw : ∀ c ∈ n, isWordChar c = true) (hv : pm.get n = some v)
+    (hafter : ∀ c r', rest = c :: r' → isWordChar c = false) :
+    scanBody t cx (f + 2) stack pm (n ++ rest) out = scanBody t cx (f + 1) stack pm rest (out ++ v) := by
+  obtain ⟨a, as, hna, haw⟩ := word_head n hne hnw
+  have hsp := word_not_special a haw
+  have htw : takeWord (a :: (as ++ rest)) = (a :: as, rest) := by
+    have := takeWord_name n rest hnw hafter
+    rw [hna] at this; simpa using this
+  have hsk : skip false (a :: (as ++ rest)) = ([], a :: (as ++ rest)) := by simp [skip, haw]
+  conv => lhs; unfold scanBody
+  rw [hna, List.cons_append, hsk]
+  simp only [hsp.1, hsp.2.1, haw, Bool.false_eq_true, if_false, if_true, List.append_nil, htw]
+  unfold resolveWord
+  simp only [if_true, ← hna, hv]
+
+/-- `#name`: the argument between double quotes -/
+theorem scanBody_stringify (t : Table) (cx : Ctx) (stack : List (List B)) (pm : PMap) (n v rest out : List B) (f : Nat)
+    (hne : n ≠ []) (hnw : ∀ c ∈ n, isWordChar c = true) (hv : pm.get n = some v)
+    (hafter : ∀ c r', rest = c :: r' → isWordChar c = false) :
+    scanBody t cx (f + 2) stack pm (35 :: (n ++ rest)) out = scanBody t cx (f + 1) stack pm rest (out ++ quoted v) := by
+  obtain ⟨a, as, hna, haw⟩ := word_head n hne hnw
+  have htw : takeWord (a :: (as ++ rest)) = (a :: as, rest) := by
+    have := takeWord_name n rest hnw hafter
+    rw [hna] at this; simpa using this
+  have hsk : skip false (a :: (as ++ rest)) = ([], a :: (as ++ rest)) := by simp [skip, haw]
+  have hsk0 : skip false (35 :: (a :: (as ++ rest))) = ([], 35 :: (a :: (as ++ rest))) := by simp [skip]
+  have hsp := word_not_special a haw
+  conv => lhs; unfold scanBody
+  rw [hna, List.cons_append, hsk0]
+  simp only [show ((35 : B) == nl) = false by decide, Bool.false_eq_true, if_false, beq_self_eq_true, if_true, hsk, List.append_nil]
+  split
+  · next r3 heq =>
+    simp only [List.cons.injEq] at heq
+    have := hsp.2.1
+    rw [heq.1] at this
+    simp at this
+  · unfold resolveWord
+    simp only [if_true, htw, ← hna, hv]
+
+/-- `##name`: the argument, the `##` gone -/
+theorem scanBody_concat (t : Table) (cx : Ctx) (stack : List (List B)) (pm : PMap) (n v rest out : List B) (f : Nat)
+    (hne : n ≠ []) (hnw : ∀ c ∈ n, isWordChar c = true) (hv : pm.get n = some v)
+    (hafter : ∀ c r', rest = c :: r' → isWordChar c = false) :
+    scanBody t cx (f + 2) stack pm (35 :: 35 :: (n ++ rest)) out = scanBody t cx (f + 1) stack pm rest (out ++ v) := by
+  obtain ⟨a, as, hna, haw⟩ := word_head n hne hnw
+  have htw : takeWord (a :: (as ++ rest)) = (a :: as, rest) := by
+    have := takeWord_name n rest hnw hafter
+    rw [hna] at this; simpa using this
+  have hsk : skip false (a :: (as ++ rest)) = ([], a :: (as ++ rest)) := by simp [skip, haw]
+  have hsk0 : ∀ x, skip false (35 :: x) = ([], 35 :: x) := by intro x; simp [skip]
+  conv => lhs; unfold scanBody
+  rw [hna, List.cons_append, hsk0]
+  simp only [show ((35 : B) == nl) = false by decide, Bool.false_eq_true, if_false, beq_self_eq_true, if_true, hsk0, hsk, List.append_nil, htw]
+  unfold resolveWord
+  simp only [if_true, ← hna, hv]
+
+/-- **`#param` stringifies**: the argument between double quotes -/
+theorem C13_stringify (t : Table) (cx : Ctx) (stack : List (List B)) (pm : PMap) (n v out : List B) (f : Nat)
+    (hne : n ≠ []) (hnw : ∀ c ∈ n, isWordChar c = true) (hv : pm.get n = some v) :
+    scanBody t cx (f + 2) stack pm (35 :: n) out = .ok (out ++ quoted v) := by
+  have := scanBody_stringify t cx stack pm n v [] out f hne hnw hv (by intro c r' e; cases e)
+  simp only [List.append_nil] at this
+  rw [this, scanBody_end]
+
+/-- **`a##b` concatenates**: the two arguments side by side, the `##` gone -/
+theorem C13_concat (t : Table) (cx : Ctx) (stack : List (List B)) (pm : PMap) (n1 n2 v1 v2 out : List B) (f : Nat)
+    (hne1 : n1 ≠ []) (hnw1 : ∀ c ∈ n1, isWordChar c = true) (hv1 : pm.get n1 = some v1)
+    (hne2 : n2 ≠ []) (hnw2 : ∀ c ∈ n2, isWordChar c = true) (hv2 : pm.get n2 = some v2) :
+    scanBody t cx (f + 3) stack pm (n1 ++ 35 :: 35 :: n2) out = .ok (out ++ v1 ++ v2) := by
+  rw [scanBody_param t cx stack pm n1 v1 (35 :: 35 :: n2) out (f + 1) hne1 hnw1 hv1
+    (by intro c r' e; simp only [List.cons.injEq] at e; rw [← e.1]; decide)]
+  have := scanBody_concat t cx stack pm n2 v2 [] (out ++ v1) f hne2 hnw2 hv2 (by intro c r' e; cases e)
+  simp only [List.append_nil] at this
+  rw [this, scanBody_end]
 
 /-! ## Non-vacuity: the reference on concrete sources (these are tests of the model, not the unbounded claims) -/
 
